@@ -142,10 +142,11 @@ func zzCid(e *zzEnt, form int) cid.Cid {
 	return cid.NewCidV0(mh.Multihash(e.m))
 }
 
-func zzPickCid(pool []*zzEnt, tag string) (int, cid.Cid) {
+func zzPickCid(pool []*zzEnt, tag string) (int, cid.Cid) { return zzPickCidForms(pool, tag, 2) }
+
+func zzPickCidForms(pool []*zzEnt, tag string, maxForm int) (int, cid.Cid) {
 	i := verifrt.NondetRange(tag+".mh", 0, len(pool)-1)
-	maxForm := 2
-	if pool[i].ident {
+	if pool[i].ident && maxForm > 1 {
 		maxForm = 1
 	}
 	f := verifrt.NondetRange(tag+".form", 0, maxForm)
@@ -283,7 +284,11 @@ func zzStep(ops []int) {
 		n := verifrt.NondetRange("batch", 0, verifrt.Param("BATCH", 2))
 		var bl []blocks.Block
 		for j := 0; j < n; j++ {
-			i, c := zzPickCid(pool, "b")
+			maxForm := 2
+			if j >= 2 {
+				maxForm = 0 // the third block of a batch is always CIDv1-raw (bounds the fork count)
+			}
+			i, c := zzPickCidForms(pool, "b", maxForm)
 			bl = append(bl, zzBlock(pool[i], c))
 			if !(withID && pool[i].ident) {
 				pool[i].present = true
